@@ -173,6 +173,35 @@ def half : α := 1 / (1 + 1)
 def asFormat (kinship : Bool) (G : List (List α)) : List (List α) :=
   if kinship then mapMat (fun x => half * x) G else G
 
+/-- `mat_asformat` in floating point: every product `0.5 * x` is rounded by `rnd`
+    (`kinship_half_rounded_partial` in Props/C13: the rounding is the identity here, barring underflow) -/
+def asFormatRnd (rnd : α → α) (kinship : Bool) (G : List (List α)) : List (List α) :=
+  if kinship then mapMat (fun x => rnd (half * x)) G else G
+
+/-! ### apply_jitter -/
+
+/-- `mat[diag_indices] = d` -/
+def setDiag (G : List (List α)) (d : List α) : List (List α) :=
+  G.zipIdx.map (fun ri => ri.1.zipIdx.map (fun xj => if xj.2 = ri.2 then d.getD ri.2 0 else xj.1))
+
+/-- the attempts of `apply_jitter`: `mat[diag] = mat_diag_old + uniform(minjitter, maxjitter, n)` then
+    `is_positive_semidefinite`, until the test succeeds or the draws (`nattempt` of them) are used up.
+    Only the diagonal is ever written, always from the saved `old` diagonal, so every candidate is the
+    input matrix with a new diagonal, and the final restore `mat[diag] = mat_diag_old` gives the input back. -/
+def jitterLoop (isPsd : List (List α) → Bool) (G : List (List α)) (old : List α) :
+    List (List α) → List (List α) × Bool
+  | [] => (G, false)
+  | u :: us =>
+    let cur := setDiag G (List.zipWith (· + ·) old u)
+    if isPsd cur then (cur, true) else jitterLoop isPsd G old us
+
+/-- DenseCoancestryMatrix.apply_jitter.  Oracle inputs: `isPsd` = the eigen-solver test
+    `is_positive_semidefinite(eigvaltol)` (a contract), `draws` = the uniform vectors in call order.
+    Returns the matrix left in the object and the reported success flag. -/
+def applyJitter (isPsd : List (List α) → Bool) (draws : List (List α)) (G : List (List α)) :
+    List (List α) × Bool :=
+  if isPsd G then (G, true) else jitterLoop isPsd G (diag G) draws
+
 def coancestryAt (G : List (List α)) (i j : Nat) : α := entry G i j
 def kinshipAt (G : List (List α)) (i j : Nat) : α := half * entry G i j
 
@@ -217,24 +246,36 @@ def maxInbreeding (G : List (List α)) : Option α := maxL (diag G)
 
 variable [DecidableEq α]
 
-/-- exact Gauss–Jordan elimination on `[A | I]` (first non-zero pivot at or below the diagonal);
-    `none` = singular.  Reference for `numpy.linalg.inv`. -/
+/-- row `i` of the `n × n` identity -/
+def identRow (n i : Nat) : List α := (List.range n).map (fun j => if j = i then (1:α) else 0)
+
+/-- the augmented matrix `[A | I]` -/
+def augment (A : List (List α)) : List (List α) :=
+  A.zipIdx.map (fun ri => ri.1 ++ identRow A.length ri.2)
+
+/-- exchange rows `k` and `pi` -/
+def swapRows (M : List (List α)) (k pi : Nat) : List (List α) :=
+  M.zipIdx.map (fun ri => if ri.2 = k then M.getD pi [] else if ri.2 = pi then M.getD k [] else ri.1)
+
+/-- normalise row `k` by its entry in column `k` and clear column `k` in every other row -/
+def elimCol (M : List (List α)) (k : Nat) : List (List α) :=
+  let rp := M.getD k []
+  let prow := rp.map (fun x => x / rp.getD k 0)
+  M.zipIdx.map (fun ri => if ri.2 = k then prow else
+    List.zipWith (fun x y => x - ri.1.getD k 0 * y) ri.1 prow)
+
+/-- one Gauss–Jordan step for column `k`: first non-zero pivot at or below the diagonal, swap, eliminate;
+    `none` when the column has no pivot (singular) -/
+def gjStep (n : Nat) (M : List (List α)) (k : Nat) : Option (List (List α)) :=
+  match (List.range n).find? (fun i => k ≤ i && decide (entry M i k ≠ 0)) with
+  | none => none
+  | some pi => some (elimCol (swapRows M k pi) k)
+
+/-- exact Gauss–Jordan elimination on `[A | I]`; `none` = singular.  Reference for `numpy.linalg.inv`
+    (sound: `inverse_sound` in Props/C13). -/
 def inverse (A : List (List α)) : Option (List (List α)) :=
-  let n := A.length
-  let aug := A.zipIdx.map (fun ri => ri.1 ++ (List.range n).map (fun j => if j = ri.2 then (1:α) else 0))
-  let step (M : List (List α)) (k : Nat) : Option (List (List α)) :=
-    match (List.range n).find? (fun i => k ≤ i && decide (entry M i k ≠ 0)) with
-    | none => none
-    | some pi =>
-      let rk := M.getD k []
-      let rp := M.getD pi []
-      let M1 := M.zipIdx.map (fun ri => if ri.2 = k then rp else if ri.2 = pi then rk else ri.1)
-      let pv := rp.getD k 0
-      let prow := rp.map (fun x => x / pv)
-      some (M1.zipIdx.map (fun ri => if ri.2 = k then prow else
-        let f := ri.1.getD k 0
-        List.zipWith (fun x y => x - f * y) ri.1 prow))
-  ((List.range n).foldlM step aug).map (fun M => M.map (fun r => r.drop n))
+  ((List.range A.length).foldlM (gjStep A.length) (augment A)).map
+    (fun M => M.map (fun r => r.drop A.length))
 
 /-- `min_inbreeding(format)`: `1.0 / inv(mat).sum()`, halved for "kinship" -/
 def minInbreeding (kinship : Bool) (G : List (List α)) : Option α :=
@@ -247,9 +288,20 @@ def inverseFmt (kinship : Bool) (G : List (List α)) : Option (List (List α)) :
 end summaries
 
 /-! ### labels -/
+
+/-- group metadata of a grouped matrix (`taxa_grp_name`, `taxa_grp_stix`, `taxa_grp_spix`, `taxa_grp_len`) -/
+structure GrpMeta where
+  name : List Int
+  stix : List Nat
+  spix : List Nat
+  len : List Nat
+  deriving Repr, DecidableEq
+
 structure Labels where
   taxa : Option (List String)
   taxaGrp : Option (List Int)
+  /-- present exactly when the source was grouped (`group_taxa()`) -/
+  grpMeta : Option GrpMeta := none
   deriving Repr, DecidableEq
 
 /-- a coancestry matrix object: values and the taxon labels it carries -/
@@ -257,13 +309,15 @@ structure CMat (α : Type) where
   mat : List (List α)
   lab : Labels
 
+/-- `select_taxa` builds a fresh object from `mat`, `taxa`, `taxa_grp`: the group metadata is not kept -/
 def Labels.select (is : List Nat) (l : Labels) : Labels :=
-  ⟨l.taxa.map (Np.take is), l.taxaGrp.map (Np.take is)⟩
+  ⟨l.taxa.map (Np.take is), l.taxaGrp.map (Np.take is), none⟩
 
 /-- `<square matrix>.select_taxa(is)` -/
 def CMat.select {α : Type} (is : List Nat) (c : CMat α) : CMat α := ⟨selectSq is c.mat, c.lab.select is⟩
 
-/-- every `from_gmat` hands the source's `taxa` / `taxa_grp` to the constructor unchanged -/
+/-- every `from_gmat` hands the source's `taxa` / `taxa_grp` to the constructor unchanged and copies the
+    four group-metadata arrays -/
 def fromGmat {α : Type} (lab : Labels) (r : Except Err (List (List α))) : Except Err (CMat α) :=
   r.map (fun G => ⟨G, lab⟩)
 
